@@ -693,4 +693,24 @@ theorem eddsa_verify_implies_goVerify (E : EdLaws G) (hp : Nat.Prime p) (pub msg
   verify_implies_goVerify E hp challenge pub msg sig h
 
 end eddsa
+
+/-! ## 5. Tests (kernel evaluation on RFC 8032 §7.1 TEST 1; proved in `Lib/SigRfcVectors.lean`) -/
+section tests
+open Kyber.Eddsa Kyber.C08.Vectors
+
+/-- TEST: the model of `sign/eddsa` reproduces RFC 8032 TEST 1 (public key and signature). -/
+theorem test_rfc8032_vector1_sign : pubBytes (keygen seed1) = pub1 ∧ sign seed1 [] = sig1 :=
+  ⟨test_rfc8032_1_pub, test_rfc8032_1_sign⟩
+
+/-- TEST: both verifier models accept RFC 8032 TEST 1 (so the hypotheses of the acceptance theorems are
+    satisfiable), and the nonce hypothesis of `eddsa_complete` holds for it. -/
+theorem test_rfc8032_vector1_verify :
+    verify pub1 [] sig1 = .ok ∧ goVerify pub1 [] sig1 = true ∧
+      decodeLE (Sha512.hash ((keygen seed1).prefix_ ++ [])) % Ed25519.L ≠ 0 :=
+  ⟨test_rfc8032_1_verify, test_rfc8032_1_goVerify, test_rfc8032_1_nonce_ne_zero⟩
+
+/-- TEST: `L•B = O` in the executable curve model — the instance of `EdLaws.L_base` that can be computed. -/
+theorem test_L_base_is_zero : Ed25519.smul Ed25519.L Ed25519.base = Edwards.zero := test_L_base
+
+end tests
 end Kyber.C08
